@@ -7,7 +7,7 @@ from fractions import Fraction
 import z3
 
 from symx.core import CTX, PathAbort, Unsupported
-from symx.scalar import SReal, INF, NINF, ITE_MODE
+from symx.scalar import SReal, INF, NINF, NAN, ITE_MODE
 from symx.oracle import UF, _eq_point
 from . import common
 from .orch import eqv, zor, diff_lists, _b
@@ -58,10 +58,17 @@ def _path(ctx, params):
         rec = dict(method=method, rel_step=rel_step, abs_step=abs_step, f0=f0, bounds=bounds, x0=list(x0.data), extra=sorted(kw))
         fdcalls.append(rec)
         per = 2 if method == "3-point" else 1
+        # SciPy on a degenerate side (lb_i == ub_i): zero step, the "stencil" point is x0 and the real-valued schemes
+        # return nan = 0/0 for that component (validated on the real SciPy by replay/real_runs.py:fd_modes)
+        bl, bu = bounds
+        degenerate = [bool(np.asarray(bl).data[i] == np.asarray(bu).data[i]) for i in range(n)] if np.asarray(bl).ndim else [False] * n
         for i in range(n):
             for s in range(per):
                 h = SReal(CTX.fresh("fdh"))
-                CTX.assume(h.z() != 0, check=False)
+                if degenerate[i]:
+                    h = SReal.of(0)
+                else:
+                    CTX.assume(h.z() != 0, check=False)
                 p = list(x0.data)
                 p[i] = p[i] + h
                 in_stencil[0] = True
@@ -76,6 +83,8 @@ def _path(ctx, params):
             CTX.assume(w.z() > 0, check=False)
             corr = (f(list(x0.data))[0] - SReal.of(f0)) * w
             base = [b + corr for b in base]
+        if method != "cs":
+            base = [SReal(NAN) if degenerate[i] else base[i] for i in range(n)]
         return np.array(base)
     sfm.approx_derivative = approx_derivative
     x0 = np.array([SReal(ctx.real("x0_%d" % i)) for i in range(n)])
@@ -149,7 +158,14 @@ def _path(ctx, params):
             ctx.check("C15.value_is_fresh", eqv(vf, f(pt)[0] * scale), info=sinfo)
         if vg is not None:
             ref = g(pt) if mode == "callable" else fd(pt)
-            ctx.check("C15.gradient_is_fresh", diff_lists(list(vg.data), [r * scale for r in ref]), info=sinfo)
+            got, want = list(vg.data), [r * scale for r in ref]
+            if mode != "callable":
+                # a component with lb == ub has no difference quotient: any finite number will do there
+                keep = [i for i in range(n) if not bool(lbv[i] == ubv[i])]
+                nan_fixed = any(got[i].is_special for i in range(n) if i not in keep)
+                ctx.check("C15.gradient_is_finite_on_degenerate_sides", nan_fixed, info=sinfo)
+                got, want = [got[i] for i in keep], [want[i] for i in keep]
+            ctx.check("C15.gradient_is_fresh", diff_lists(got, want) if got else False, info=sinfo)
         ngr = len(gcalls) if mode == "callable" else len(fdcalls)
         ctx.check("C15.nfev_counts_objective_calls", sf.nfev != len(fcalls), info=dict(sinfo, nfev=sf.nfev, calls=len(fcalls)))
         ctx.check("C15.ngev_counts_gradient_computations", sf.ngev != ngr, info=dict(sinfo, ngev=sf.ngev, calls=ngr))
@@ -238,4 +254,7 @@ def real_cases(params, cand):
             o2["value"] = 2.5
         gen.append(o2)
     cases.append(dict(base, x0=[0.3 + 0.1 * i for i in range(n)], ops=gen))
+    deg = [i for i in range(n) if model.get("lb%d" % i) is not None and model.get("lb%d" % i) == model.get("ub%d" % i)]
+    if deg and base["jac"] != "callable":
+        cases.append(dict(base, x0=[0.3 + 0.1 * i for i in range(n)], ops=gen, degenerate=deg))
     return cases
